@@ -783,6 +783,7 @@ class Pipeline:
             except Undecided as e:
                 raise AnalysisError('pipeline of {}: {}'.format(entry, e))
             seqs = []
+            rets = []
             for s in finals:
                 if s.status == 'raise':
                     continue
@@ -790,6 +791,8 @@ class Pipeline:
                 for i, c in enumerate(calls):
                     c.index = i
                 seqs.append(calls)
+                rets.append(s.value if s.status == 'return' else None)
+            self.__dict__.setdefault('returned', {})[value] = rets
             if not seqs:
                 raise AnalysisError('pipeline of {}: no path returns'.format(entry))
             self.paths[value] = seqs
@@ -798,6 +801,11 @@ class Pipeline:
         for value in (False, True):
             for calls in self.paths[value]:
                 yield value, calls
+
+    def all_paths_with_result(self):
+        for value in (False, True):
+            for calls, ret in zip(self.paths[value], self.returned[value]):
+                yield value, calls, ret
 
     def passes(self, calls):
         """The calls that take the running item list (the first argument is the result of an earlier recorded call)."""
